@@ -33,17 +33,20 @@ namespace occa {
     }
 
     hash_t device::kernelHash(const occa::json &props) const {
-      return (
-        occa::hash(props["compiler"])
-        ^ props["compiler_flags"]
-        ^ props["compiler_env_script"]
-        ^ props["compiler_vendor"]
-        ^ props["compiler_language"]
-        ^ props["compiler_linker_flags"]
-        ^ props["compiler_shared_flags"]
-        ^ props["include_occa"]
-        ^ props["link_occa"]
-      );
+      // Hash the labelled values together: XOR-ing the individual value hashes
+      // lets equal values in two properties cancel and swapped values collide
+      occa::json keyProps;
+      keyProps["compiler"]              = props["compiler"];
+      keyProps["compiler_flags"]        = props["compiler_flags"];
+      keyProps["compiler_env_script"]   = props["compiler_env_script"];
+      keyProps["compiler_vendor"]       = props["compiler_vendor"];
+      keyProps["compiler_language"]     = props["compiler_language"];
+      keyProps["compiler_linker_flags"] = props["compiler_linker_flags"];
+      keyProps["compiler_shared_flags"] = props["compiler_shared_flags"];
+      keyProps["include_occa"]          = props["include_occa"];
+      keyProps["link_occa"]             = props["link_occa"];
+      keyProps["okl_enabled"]           = props.get("okl/enabled", true);
+      return occa::hash(keyProps);
     }
 
     //---[ Stream ]---------------------
